@@ -1,4 +1,4 @@
-from sa.selftest.harness import M, T
+from sa.selftest.harness import M, T, Variant
 
 X = "sharepoint2text/parsing/extractors/"
 S = X + "serialization.py"
@@ -19,6 +19,7 @@ MUTANTS = [
     M("bytesio-no-rewind", S, "    position = buffer.tell()\n    buffer.seek(0)\n", "    position = buffer.tell()\n", "C05-POS"),
 ]
 TWINS = [
+    Variant("xlsx-headers-through-str-helper", [("sharepoint2text/parsing/extractors/ms_modern/xlsx_extractor.py", "    headers = [\n        (\n            f\"Unnamed: {i}\"\n            if val is None or (isinstance(val, str) and not val.strip())\n            else str(val)\n        )\n        for i, val in enumerate(rows[0])\n    ]\n", "    headers = [_header_text(i, val) for i, val in enumerate(rows[0])]\n"), ("sharepoint2text/parsing/extractors/ms_modern/xlsx_extractor.py", "def _read_sheet_data(", "def _header_text(i: int, val: Any) -> str:\n    if val is None or (isinstance(val, str) and not val.strip()):\n        return f\"Unnamed: {i}\"\n    return str(val)\n\n\ndef _read_sheet_data(")], None),
     T("rename-local", S, "    position = buffer.tell()\n    buffer.seek(0)\n    encoded = base64.b64encode(buffer.read()).decode(\"utf-8\")\n    buffer.seek(position)\n    return encoded", "    pos = buffer.tell()\n    buffer.seek(0)\n    out = base64.b64encode(buffer.read()).decode(\"utf-8\")\n    buffer.seek(pos)\n    return out"),
     T("optional-spelling", D, "    styles: List[RtfStyle] = field(default_factory=list)", "    styles: list[RtfStyle] = field(default_factory=list)"),
     T("row-key-explicit-str", XLSF, "                header = (\n                    headers[col_idx] if col_idx < len(headers) else f\"col_{col_idx}\"\n                )\n", "                header = str(headers[col_idx]) if col_idx < len(headers) else f\"col_{col_idx}\"\n"),
